@@ -22,6 +22,10 @@ CHECKS["C03"] = ("§5 C03", "All feasible paths of the real matching code (locat
 CHECKS["C10"] = ("§5 C10", "All feasible paths of the real condition/expression code for 3 hits with symbolic per-hit truth, unbounded fire_count and "
     "9 condition flavours (failing ones raise exceptions with a free symbolic message); name visibility of 9 names (local, host global, builtin, agent-only) "
     "at the 4 evaluation sites (watch, log field, metric label, condition) against Python's own eval in the frame scope; failing-expression isolation.")
+CHECKS["C11"] = ("§5 C11", "build_trigger decided over FREE symbolic strings for stage/snapshot/span/method_name/log_msg/condition against a reference table "
+    "(location kind, exact action set, per-action id/condition/limits/watches); then the tracepoint is installed through convert_response or add_custom and the "
+    "matching event driven through the real handler: observed effects equal the table; per-action condition and fire budget; 3-tracepoint responses with "
+    "same-location and uninterpretable members.")
 PENDING = {}
 
 def main():
